@@ -2974,7 +2974,7 @@ func (p *parser) parseBranchStmt(tok token.Token) ast.Stmt {
 	oldpos, oldlit := p.pos, p.lit // XGo: save token to allow goto() as a function
 	pos := p.expect(tok)
 	next := p.tok
-	if next != token.IDENT && next != token.SEMICOLON { // XGo: allow goto() as a function
+	if next != token.IDENT && next != token.SEMICOLON && next != token.RBRACE { // XGo: allow goto() as a function
 		p.unget(oldpos, token.IDENT, oldlit)
 		s := p.parseSimpleStmt(basic, true)
 		p.expectSemi()
@@ -2988,7 +2988,7 @@ func (p *parser) parseBranchStmt(tok token.Token) ast.Stmt {
 		n := len(p.targetStack) - 1
 		p.targetStack[n] = append(p.targetStack[n], label)
 	}
-	if p.tok != token.SEMICOLON { // XGo: goto command
+	if p.tok != token.SEMICOLON && p.tok != token.RBRACE { // XGo: goto command
 		if label != nil {
 			p.unget(label.NamePos, token.IDENT, label.Name)
 		}
